@@ -118,6 +118,7 @@ def b_adequacy(seed):
 def harnesses():
     hs = []
     for name, src in STMT.items():
-        hs.append(Harness(name, h_template(name, src), units=[(E_PY, "AstEval.aeval")], replay=replay_template, max_paths=8000))
+        hs.append(Harness(name, h_template(name, src), units=[(E_PY, "AstEval.aeval")], replay=replay_template, max_paths=8000,
+                          tier="thorough" if name == "With.two" else "quick"))  # With.two needs > 100 s of exploration
     hs.append(Harness("adequacy.native-differential", b_adequacy, units=[(E_PY, "AstEval.aeval")], kind="bounded"))
     return hs
